@@ -51,8 +51,8 @@ def one(name):
         detected = 'VIOLATION property=' in out
         skipped = sorted(set(re.findall(r'^SKIPPED-HARNESS (\S+):', out, re.M)))
         result = 'detected' if detected else ('check did not run (exit %s)' % code if code not in (0, 1) else 'missed')
-        if meta.get('obsolete'):
-            result += ' (obsolete: ' + str(meta['obsolete']) + ')'
+        if meta.get('status_on_repaired_tree') and not detected:
+            result = 'not a violation any more (' + str(meta['status_on_repaired_tree']).split(':')[0] + ')'
         meta['detected_by'] = {'tier': tier, 'result': result, 'exit': code, 'harnesses': hs, 'skipped_harnesses': skipped}
         json.dump(meta, open(mp, 'w'), indent=1)
         rows[name] = (name, prop, 'DETECTED' if detected else result, ','.join(hs))
